@@ -111,7 +111,7 @@ def explore(res, tier, seed, model_ok=True):
     states = [('idle', b'', False)]
     if tier == 'thorough':
         states += [('mid-text', server_frame(1, b'ab', fin=0), False), ('mid-binary', server_frame(2, b'ab', fin=0), False),
-                   ]   # ('idle-deflate', b'', True) is enabled once the model has an inflater (C06)
+                   ('idle-deflate', b'', True)]
     for sname, prefix, defl in states:
         hscs, hmeta = [], []
         for b0 in range(256):
